@@ -268,7 +268,9 @@ class ManagerMachine(Machine):
         """swarm: every run has a theme that concentrates it on one region of the
         (model, point, configuration, operation) space, so that a small batch still
         reaches each outcome class and each kind of history several times"""
-        theme = rng.choice(ManagerMachine.THEMES)
+        # the labelling theme is drawn twice as often as the others: its failures need
+        # one (variant, point) coincidence each and are the cheapest runs of the batch
+        theme = rng.choice(ManagerMachine.THEMES + ("labelling",))
         kind = {"bag": "bag", "singlet": "singlet"}.get(theme, "yukawa")
         pts = fixtures.POINTS[kind]
         weights = {"setup": 1, "lte": 1, "solve": 3, "detonation": 1, "hydro": 1, "thermo": 1,
@@ -282,8 +284,10 @@ class ManagerMachine(Machine):
             variants = ["V0", rng.choice(["V1", "V5"])]
             good = [t for t in good if t >= 6.5]
         elif theme == "labelling":
-            variants = rng.sample(["V2", "V4", "V7", "V8", "V9", "V10"], 2) + ["V0"]
-            weights.update(config=3, hydro=0, thermo=0, detonation=0, arm=0)
+            variants = rng.sample(["V2", "V4", "V7", "V8", "V9", "V10"], 3) + ["V0"]
+            # a coverage theme: many (variant, point, settings) combinations per run
+            weights.update(config=4, solve=4, setup=2, hydro=0, thermo=0, detonation=0, arm=0,
+                           lte=0, new_model=0, params=0, other_manager=0)
             good = [t for t in good if t >= 7.0]
         elif theme == "offeq":
             offEq = True
